@@ -176,7 +176,14 @@ func refSetting(r *refBuf, s Setting) {
 	r.str(s.Value)
 }
 
-// refClientInfo encodes a client info section without an OpenTelemetry span.
+// refSpan, when set, is the OpenTelemetry span the reference writes into the client info
+// (16 bytes trace id, 8 bytes span id, flags).
+var refSpan *struct {
+	ids   [24]byte
+	flags byte
+}
+
+// refClientInfo encodes a client info section (with refSpan, if set).
 func refClientInfo(r *refBuf, c ClientInfo, v int) {
 	r.u8(byte(c.Query))
 	r.str(c.InitialUser)
@@ -202,7 +209,19 @@ func refClientInfo(r *refBuf, c ClientInfo, v int) {
 		r.vint(c.Patch)
 	}
 	if v >= refRevOpenTelemetry {
-		r.u8(0)
+		if refSpan != nil {
+			// trace id and span id as two / one 64-bit words, each byte-reversed; empty trace state; flags
+			r.u8(1)
+			for w := 0; w < 3; w++ {
+				for i := 7; i >= 0; i-- {
+					r.u8(refSpan.ids[w*8+i])
+				}
+			}
+			r.str("")
+			r.u8(refSpan.flags)
+		} else {
+			r.u8(0)
+		}
 	}
 	if v >= refRevParallelRepl {
 		if c.CollaborateWithInitiator {
